@@ -605,6 +605,11 @@ func runC06(c *worker.Ctx) {
 				b.Kind, b.Status = "status-503", 503
 			case 5:
 				b.Kind, b.BodyErrAfter = "body-error", c.T.Draw(5)
+			case 6:
+				// the peer announces more than it sends and closes cleanly: what
+				// net/http reports as an unexpected EOF while the body is read
+				a := int64(len(b.Body) + 1 + c.T.Draw(5))
+				b.Kind, b.Announce = "short-body", &a
 			}
 		}
 		return b
@@ -848,6 +853,12 @@ func runC06(c *worker.Ctx) {
 		for ti, t := range r.Trips {
 			_ = ti
 			if !strings.HasPrefix(t.Result, "status:") {
+				continue
+			}
+			if t.Kind == "body-error" || t.Kind == "short-body" {
+				// the transfer broke off inside the body: no fetch of this object
+				// has succeeded, there is nothing to store
+				res.Probe("origin_transfer_broke_off_inside_body")
 				continue
 			}
 			// every completed fetch may have stored something under this hash
